@@ -4,7 +4,8 @@ package kcp
 // cores joined by an in-memory path that loses, duplicates and reorders nothing and delivers
 // every datagram after a fixed one-way delay, under a virtual clock (refTime is moved, nothing
 // sleeps). Enumerated: nodelay x interval x fast-resend threshold x congestion control on/off x
-// send window x one-way delay x write pattern, restricted to the property's premise (round trip
+// send window x one-way delay x write pattern x start of the 32-bit clock (early, just before 2^32,
+// just before 2^31), restricted to the property's premise (round trip
 // including the peer's acknowledgement delay below the minimum RTO; the reader keeps up; receive
 // window >= min(send window, 32)). Checked: every data segment (command 81) appears on the
 // sender's wire exactly once, everything written is delivered, and the RTO the core reports
@@ -18,6 +19,8 @@ import (
 	"testing"
 	"time"
 )
+
+var errVerifContaminated = fmt.Errorf("real time leaked into the virtual clock")
 
 type verifOncePath struct {
 	delay int // ticks
@@ -53,9 +56,12 @@ func (p *verifOncePath) deliver(now int) {
 	}
 }
 
-func verifOnceRun(nodelay, interval, resend, nc, wnd, delay, pattern, mtu int) error {
+func verifOnceRun(nodelay, interval, resend, nc, wnd, delay, pattern, mtu int, clock0 int64) error {
 	saved := refTime
 	defer func() { refTime = saved }()
+	// the 32-bit millisecond clock starts at clock0 (the transfer crosses 2^32 / 2^31 for the late offsets)
+	virt := clock0
+	refTime = time.Now().Add(-time.Duration(virt) * time.Millisecond)
 	var a, b *KCP
 	now := 0
 	ab := &verifOncePath{delay: delay, dst: &b, push: map[uint32]int{}}
@@ -107,7 +113,11 @@ func verifOnceRun(nodelay, interval, resend, nc, wnd, delay, pattern, mtu int) e
 			sent.Write(m)
 			next++
 		}
-		refTime = refTime.Add(-time.Duration(step) * time.Millisecond)
+		// the virtual clock is re-anchored at every tick; real time that passes inside a tick (the
+		// process being descheduled on a busy machine) would leak into currentMs(): such a run is
+		// discarded and repeated, never judged
+		virt += int64(step)
+		refTime = time.Now().Add(-time.Duration(virt) * time.Millisecond)
 		ab.deliver(now)
 		ba.deliver(now)
 		if (tick*step)%interval == 0 {
@@ -120,6 +130,9 @@ func verifOnceRun(nodelay, interval, resend, nc, wnd, delay, pattern, mtu int) e
 				break
 			}
 			got.Write(buf[:n])
+		}
+		if d := int32(currentMs() - uint32(virt)); d > 1 || d < 0 {
+			return errVerifContaminated
 		}
 		for _, k := range []*KCP{a, b} {
 			if k.rx_rto < minrto || k.rx_rto > 60000 {
@@ -152,7 +165,7 @@ func TestVerifBounded(t *testing.T) {
 		wnds = []int{1, 2, 3, 4, 8, 16, 32, 33, 64, 128, 256}
 		mtus = []int{100, 300, 1400}
 	}
-	runs := 0
+	runs, discarded, unjudged := 0, 0, 0
 	for _, nodelay := range []int{0, 1} {
 		for _, interval := range []int{10, 20, 30, 40} {
 			for _, resend := range []int{0, 1, 2} {
@@ -170,9 +183,20 @@ func TestVerifBounded(t *testing.T) {
 							}
 							for pattern := 0; pattern < 3; pattern++ {
 								for _, mtu := range mtus {
-									runs++
-									if err := verifOnceRun(nodelay, interval, resend, nc, wnd, delay, pattern, mtu); err != nil {
-										t.Fatalf("BOUNDED-VIOLATION: nodelay=%d interval=%d resend=%d nc=%d wnd=%d one-way-delay=%dms pattern=%d mtu=%d: %v", nodelay, interval, resend, nc, wnd, delay*10, pattern, mtu, err)
+									for _, clock0 := range []int64{1000, 1<<32 - 150, 1<<31 - 150} {
+										runs++
+										err := verifOnceRun(nodelay, interval, resend, nc, wnd, delay, pattern, mtu, clock0)
+										for try := 0; err == errVerifContaminated && try < 200; try++ {
+											discarded++
+											err = verifOnceRun(nodelay, interval, resend, nc, wnd, delay, pattern, mtu, clock0)
+										}
+										if err == errVerifContaminated {
+											unjudged++
+											continue
+										}
+										if err != nil {
+											t.Fatalf("BOUNDED-VIOLATION: nodelay=%d interval=%d resend=%d nc=%d wnd=%d one-way-delay=%dms pattern=%d mtu=%d clock-start=%d: %v", nodelay, interval, resend, nc, wnd, delay*10, pattern, mtu, clock0, err)
+										}
 									}
 								}
 							}
@@ -182,5 +206,5 @@ func TestVerifBounded(t *testing.T) {
 			}
 		}
 	}
-	fmt.Printf("BOUNDED-COVERAGE: kcp exactly-once: %d runs (nodelay x interval x resend x nc x window x delay x write pattern within the premise), 60 messages each\n", runs)
+	fmt.Printf("BOUNDED-COVERAGE: kcp exactly-once: %d runs (nodelay x interval x resend x nc x window x delay x write pattern x clock start {1 s, just before 2^32, just before 2^31} within the premise), 60 messages each; %d runs discarded and repeated because real time leaked into the virtual clock, %d configurations left unjudged for that reason\n", runs, discarded, unjudged)
 }
